@@ -60,7 +60,8 @@ type c18Val struct {
 	b   bool
 	i   int64
 	s   string
-	ref any // *c18SliceV | *c18StructV | *c18Val (pointer target) | *strings.Builder | []c18Val (tuple) | *c18FuncV
+	tm  string // strings only: the template the string was built from ("%d" for a formatted number, see c18_frag.go); "" = the string itself
+	ref any    // *c18SliceV | *c18StructV | *c18Val (pointer target) | *strings.Builder | []c18Val (tuple) | *c18FuncV
 }
 
 type c18SliceV struct {
@@ -674,11 +675,18 @@ func (m *c18Machine) call(fr *c18Frame, call *ast.CallExpr) c18Val {
 				if v.k == c18Unknown {
 					return v
 				}
+				if r, ok := m.fragToString(v, info.TypeOf(call.Args[0])); ok {
+					return r
+				}
 				m.abort("conversion of a non-string value to string")
 			}
 			return c18Val{}
 		case *types.Struct:
 			return c18Copy(v)
+		case *types.Slice:
+			if r, ok := m.fragToSlice(v, u); ok {
+				return r
+			}
 		}
 		m.abort("unsupported conversion to %s", tv.Type)
 	}
@@ -738,6 +746,8 @@ func (m *c18Machine) call(fr *c18Frame, call *ast.CallExpr) c18Val {
 			tmpl := ""
 			if isFmt {
 				tmpl = f.s
+			} else if f.tm != "" {
+				tmpl = f.tm
 			} else if _, computed := unparen(call.Args[arg]).(*ast.CallExpr); !computed {
 				tmpl = text
 			}
@@ -796,10 +806,17 @@ func (m *c18Machine) call(fr *c18Frame, call *ast.CallExpr) c18Val {
 		if a.k != c18Int {
 			return c18Val{}
 		}
-		return c18StrV(strconv.Itoa(int(a.i)))
+		return c18NumStr(strconv.Itoa(int(a.i)))
+	case "strconv.FormatInt", "strconv.FormatUint", "strconv.AppendInt", "strconv.AppendUint",
+		"strings.Builder.Write", "bytes.Buffer.Write", "strings.Repeat", "strings.Join":
+		return m.fragCall(fr, call, full)
 	case "fmt.Sprintf":
 		f := m.eval(fr, call.Args[0])
-		return c18StrV(m.sprintf(f, m.evalArgs(fr, call, 1, true)))
+		r := c18StrV(m.sprintf(f, m.evalArgs(fr, call, 1, true)))
+		if r.s != f.s {
+			r.tm = c18Tmpl(f)
+		}
+		return r
 	case "fmt.Fprintf", "fmt.Fprint":
 		w := m.eval(fr, call.Args[0])
 		b := m.builderOf(w)
@@ -832,9 +849,12 @@ func (m *c18Machine) call(fr *c18Frame, call *ast.CallExpr) c18Val {
 		}
 		switch fn.Name() {
 		case "WriteString":
-			text := m.strArg(m.eval(fr, call.Args[0]), "WriteString")
+			av := m.eval(fr, call.Args[0])
+			text := m.strArg(av, "WriteString")
 			tmpl := ""
-			if _, computed := unparen(call.Args[0]).(*ast.CallExpr); !computed {
+			if av.tm != "" {
+				tmpl = av.tm
+			} else if _, computed := unparen(call.Args[0]).(*ast.CallExpr); !computed {
 				tmpl = text
 			}
 			m.emitT(call, b, text, tmpl)
@@ -980,6 +1000,9 @@ func (m *c18Machine) builtin(fr *c18Frame, name string, call *ast.CallExpr) c18V
 		return c18Val{}
 	case "make":
 		t := fr.info.TypeOf(call.Args[0])
+		if _, isChan := t.Underlying().(*types.Chan); isChan {
+			return c18Val{} // channels are not modelled: an unknown value (any use of it aborts)
+		}
 		if mt, ok := t.Underlying().(*types.Map); ok {
 			for _, a := range call.Args[1:] {
 				m.eval(fr, a) // size hint: evaluated for its effects only
@@ -1020,7 +1043,7 @@ func (m *c18Machine) builtin(fr *c18Frame, name string, call *ast.CallExpr) c18V
 					}
 				case c18Nil:
 				case c18Str:
-					m.abort("append of string bytes")
+					add = append(add, c18Bytes(v.s)...)
 				default:
 					m.abort("append of unknown slice")
 				}
@@ -1368,7 +1391,7 @@ func (m *c18Machine) binary(fr *c18Frame, e *ast.BinaryExpr) c18Val {
 	if x.k == c18Str && y.k == c18Str {
 		switch e.Op {
 		case token.ADD:
-			return c18StrV(x.s + y.s)
+			return c18Concat(x, y)
 		case token.LSS:
 			return c18BoolV(x.s < y.s)
 		case token.LEQ:
@@ -1657,7 +1680,7 @@ func (m *c18Machine) assignOp(fr *c18Frame, s *ast.AssignStmt) {
 			}
 			*box = c18IntV(c18WrapInt(r, t))
 		case x.k == c18Str && y.k == c18Str && op == token.ADD:
-			*box = c18StrV(x.s + y.s)
+			*box = c18Concat(x, y)
 		default:
 			*box = c18Val{}
 		}
